@@ -499,7 +499,7 @@ class Optimizer(object):
                 proces_snippet.append([gate,qubits]) 
 
             # The closest gate is compatible with target qubit
-            elif snippet[loc-1][1][0] == snippet[loc][1][1]: 
+            elif snippet[loc+1][1][0] == snippet[loc][1][1]: 
                 gate = np.kron(np.identity(2),snippet[loc+1][0]) @ proces_snippet[-1][0]
                 qubits = proces_snippet[-1][1]
                 proces_snippet = proces_snippet[:-1]
